@@ -51,7 +51,7 @@
 #define MAXOBJ 16
 #define MAXPROC 64
 #define MAXCTR 8
-#define EVENT_CEILING 200000u
+#define EVENT_CEILING 20000u
 
 enum okind { O_RES, O_POOL, O_BUF, O_OQ, O_PQ, O_COND };
 
